@@ -1,6 +1,7 @@
 import Lean.Data.Json
 import Nutree.Model.Basic
 import Nutree.Model.Ops
+import Nutree.Model.World
 open Lean Nutree
 namespace Driver
 
@@ -85,8 +86,7 @@ def optIntOfJson : Json → E (Option Int)
 /-- Driver state. -/
 structure St where
   pool : Array Atom := #[]
-  trees : Array Tree := #[]
-  next : Nat := 1
+  w : World := {}
 
 def field (j : Json) (k : String) : E Json := j.getObjVal? k
 def fieldD (j : Json) (k : String) (d : Json) : Json := (j.getObjVal? k).toOption.getD d
